@@ -39,7 +39,7 @@ type State struct {
 	ep    *epoch
 	alloc Term
 	pc    Term
-	defers []*ssa.Defer
+	defers []deferEntry
 }
 
 func (s *State) clone() *State {
